@@ -6,6 +6,8 @@ package main
 // nondeterministic.
 
 import (
+	"go/types"
+
 	"golang.org/x/tools/go/ssa"
 )
 
@@ -147,5 +149,37 @@ func init() {
 		e.pathAuxInc("clock")
 		lo, hi := typeRange(63, false)
 		return e.input("env.time.since."+itoa(e.pathAux["clock"].(int)), SInt, lo, hi)
+	}
+}
+
+func init() {
+	// bytes.Equal over file contents / marshalled messages (opaque blobs): equal contents are equal messages.
+	stubs["bytes.Equal"] = func(e *Exec, fr *Frame, fn *ssa.Function, a []Value) Value {
+		x, okx := a[0].(SliceV)
+		y, oky := a[1].(SliceV)
+		if !okx || !oky {
+			e.unsupported("bytes.Equal of %T and %T", a[0], a[1])
+		}
+		if x.Len == 0 || y.Len == 0 {
+			return e.tf.Bool(x.Len == 0 && y.Len == 0)
+		}
+		if x.Arr == y.Arr && x.Off == y.Off && x.Len == y.Len {
+			return e.tf.Bool(true)
+		}
+		bx, _ := x.Arr.Aux.(*protoBlob)
+		by, _ := y.Arr.Aux.(*protoBlob)
+		if bx == nil || by == nil {
+			e.unsupported("bytes.Equal of byte slices not produced by the harness")
+		}
+		if bx.bad != by.bad {
+			return e.tf.Bool(false) // corrupt bytes never equal the encoding of a message
+		}
+		if bx.bad {
+			e.unsupported("bytes.Equal of two corrupt contents")
+		}
+		if bx.msg.Obj == nil || by.msg.Obj == nil || bx.msg.Obj.Typ == nil {
+			e.unsupported("bytes.Equal of untyped messages")
+		}
+		return e.deepEq(bx.msg, by.msg, types.NewPointer(bx.msg.Obj.Typ), map[string]bool{})
 	}
 }
